@@ -155,7 +155,7 @@ theorem step_inv {s s' : State} {e : Ev} (h : Inv s) (hs : step s e = some s') :
         simpa using this
       | unprocessable =>
         cases hs
-        have := inv_done h o .dropped422 hl s.errors [] (by intro x hx; cases hx)
+        have := inv_done h o .errored hl (s.errors + 1) [] (by intro x hx; cases hx)
         simpa using this
     · cases hs
   | batchEnd o =>
@@ -189,7 +189,7 @@ theorem run_inv : ∀ (es : List Ev) {s s' : State}, Inv s → run s es = some s
     · cases hr
 
 /-- **C06.no_negative_counter** and the D19 shape: at `waitReturn` without abort every known oid
-is terminal; which terminals exist is exactly the conservation statement (`dropped422` is the
+is terminal; which terminals exist is exactly the conservation statement (the former `dropped422` class is gone with the D19 repair; it was the
 fourth, unreported, outcome of the pinned code). -/
 theorem wait_return_all_terminal {s s' : State} (es : List Ev) (h0 : Inv s) (hr : run s es = some s')
     (hw : s'.waitReturned = true) (hna : s'.aborted = false) (hc : s'.counter = 0) :
